@@ -65,8 +65,9 @@ type UFuncDef struct {
 }
 
 type GhostDef struct {
-	Name string
-	Type string
+	Name     string
+	Type     string
+	Monotone bool // integer ghost that the environment model never decreases
 }
 
 type SpecDB struct {
@@ -189,7 +190,15 @@ func (db *SpecDB) loadFile(path string, assumed bool) error {
 			if _, ok := db.Ghosts[w[1]]; !ok {
 				db.GhostOrd = append(db.GhostOrd, w[1])
 			}
-			db.Ghosts[w[1]] = &GhostDef{w[1], strings.Join(w[2:], "")}
+			gd := &GhostDef{Name: w[1]}
+			for _, x := range w[2:] {
+				if x == "monotone" {
+					gd.Monotone = true
+				} else {
+					gd.Type += x
+				}
+			}
+			db.Ghosts[w[1]] = gd
 			cur = nil
 		case "ufunc":
 			// ufunc name(T1,T2) R
